@@ -1154,7 +1154,10 @@ impl<'p> Harness<'p> {
             }
         }
         let mf: Vec<Failure> = std::mem::take(&mut self.model.failures);
-        self.failures.extend(mf);
+        if self.model.gave_up.is_none() {
+            self.failures.extend(mf);
+        }
+        // (what the model said about a round in which it gave up is not reported)
         if let Some(why) = self.model.gave_up.clone() {
             self.classes.gave_up = Some(why.clone());
             self.trace.push(format!("-- model gave up: {why}"));
